@@ -582,7 +582,7 @@ func (c *fnCtx) externCall(key string, v *ast.CallExpr, pre *[]fnBind) ([]string
 					k = 1
 				}
 				for j := 0; j < k; j++ {
-					rts = append(rts, c.goType(f.Type))
+					rts = append(rts, c.externResType(key, f.Type)) // fn_stdobj.go: read inside that package
 				}
 			}
 		}()
@@ -592,7 +592,7 @@ func (c *fnCtx) externCall(key string, v *ast.CallExpr, pre *[]fnBind) ([]string
 	}
 	for _, t := range rts {
 		switch t.k {
-		case "int", "byte", "bool", "string", "elem", "u64":
+		case "int", "byte", "bool", "string", "elem", "u64", "err", "opaque":
 		default:
 			c.lostAt(v, "result of %s of type %s", key, t.k)
 		}
